@@ -85,6 +85,62 @@ def saved_one_shot_results(ctx, rule_id, files, what):
 
 
 
+def module_table_memos(ctx, rule_id, files, what):
+    """a module-level table that a function fills and answers from (`hit = _T.get(key)` ... `_T[key] = value`) lives as long as the process: the stored value may depend only on
+    what the key contains - a parameter that shapes the value but is missing from the key gives every later call with another value of it the answer of the first."""
+    from ..index import names_in
+    n = 0
+    for rel in files:
+        if not ctx.ix.exists(rel):
+            continue
+        m = ctx.ix.module(rel)
+        tables = {t.id for st in m.tree.body if isinstance(st, ast.Assign) for t in st.targets if isinstance(t, ast.Name)
+                  and ((isinstance(st.value, ast.Dict) and not st.value.keys) or (isinstance(st.value, ast.Call) and (dotted(st.value.func) or '').split('.')[-1] in ('dict', 'defaultdict', 'OrderedDict') and not st.value.args))}
+        if not tables:
+            continue
+        for f in [x for x in m.tree.body if isinstance(x, ast.FunctionDef)]:
+            params = {a.arg for a in f.args.args + f.args.kwonlyargs}
+            defs = {}
+            for s_ in walk_no_nested(f):
+                if isinstance(s_, ast.Assign):
+                    for t in s_.targets:
+                        for x in ast.walk(t):
+                            if isinstance(x, ast.Name):
+                                defs.setdefault(x.id, []).append(s_.value)
+                elif isinstance(s_, ast.With):
+                    for it in s_.items:
+                        if isinstance(it.optional_vars, ast.Name):
+                            defs.setdefault(it.optional_vars.id, []).append(it.context_expr)
+
+            def deps(e, seen=()):
+                out = set()
+                for n_ in names_in(e):
+                    if n_ in params:
+                        out.add(n_)
+                    elif n_ in defs and n_ not in seen:
+                        for v_ in defs[n_]:
+                            out |= deps(v_, seen + (n_,))
+                return out
+            for s_ in walk_no_nested(f):
+                if not (isinstance(s_, ast.Assign) and any(isinstance(t, ast.Subscript) and isinstance(t.value, ast.Name) and t.value.id in tables for t in s_.targets)):
+                    continue
+                t = [t for t in s_.targets if isinstance(t, ast.Subscript) and isinstance(t.value, ast.Name) and t.value.id in tables][0]
+                tab, key = t.value.id, t.slice
+                read_back = [x for x in walk_no_nested(f) if isinstance(x, ast.Name) and x.id == tab and isinstance(x.ctx, ast.Load) and not any(y is x for y in ast.walk(s_))]
+                if not read_back:
+                    continue
+                n += 1
+                kd, vd = deps(key), deps(s_.value)
+                extra = sorted(vd - kd)
+                ctx.emit(rule_id, not extra, rel, s_, f'{f.name} memoises in the module table {tab} under `{src(key)}` ' + ('(the key covers every parameter the stored value depends on)' if not extra else
+                         f'(= {sorted(kd)}), but the stored value is computed from {sorted(vd)}: it depends on {extra}, which the key lacks - a later call with another `{extra[0]}` in the same process is answered '
+                         f'with the entry of the first'), key=f'module-memo-key-complete:{f.name}:{tab}',
+                         witness={'history': [f'{f.name}(.., {extra[0]}=a)', f'{f.name}(.., {extra[0]}=b) -> the value computed for a']} if extra else None,
+                         what=f'{what}: {f.name} caches per process under a key that lacks {extra}')
+    return n
+
+
+
 def single_pass_iterators(ctx, rule_id, files, what):
     """no function of `files` consumes a single-pass iterator twice (see util.one_shot_reuse)"""
     nfun = 0
@@ -260,6 +316,7 @@ def register(prop, title):
     def s3(ctx, prop=prop, title=title):
         memoised_functions(ctx, f'{prop}-S3', prop, files_of(ctx, prop), title)
         saved_one_shot_results(ctx, f'{prop}-S3', files_of(ctx, prop), title)
+        module_table_memos(ctx, f'{prop}-S3', files_of(ctx, prop), title)
     return s1
 
 
